@@ -487,6 +487,46 @@ def run(prog, rep, tier, repo):
                        why='the rule then treats inputs differently according to their scale (abscissae 1e-9 apart, or nearly even grids, take the other path)')
     rep.ok('data-threshold', 'data-threshold:scan', '%d integrate:: bodies scanned for data comparisons against absolute constants' % len(keys))
 
+    # ---- D6' the composite rule has exactly n - 1 interior nodes for every panel count: the iterator that trapz sums over is counted on exact
+    # witnesses, rounding-sensitive ones included -- a node grid taken from arange(a, b, dx) has ceil((b-a)/dx) points, which is n + 1 for
+    # about one panel count in twenty (n = 49 on [0, 1]), and the extra node at b is then counted with full weight
+    from ..precond import NC as _NC, Frame as _Frame, Uneval as _Uneval, count_of as _count_of, _nk as _nk_
+    ft = prog.func('integrate::functions::trapz')
+    key = 'trapezoid-nodes'
+    if ft is not None:
+        sums = [z for r in ft.return_values() for z in subterms(r) if tag(z) == 'call' and short(z[1]) == 'sum' and z[2]]
+        sums += [z for st in ft.stores() for z in subterms(st.value) if tag(z) == 'call' and short(z[1]) == 'sum' and z[2] and z not in sums]
+        if len(sums) != 1:
+            rep.undecided('trapezoid-nodes', key, '%d summations in trapz' % len(sums), site_of(ft.body), proof=False)
+        else:
+            ncx_ = _NC(prog)
+            bad, used, why_ = None, 0, None
+            for a0, b0, n0 in ((0.0, 1.0, 1), (0.0, 1.0, 2), (0.0, 1.0, 7), (0.0, 1.0, 49), (0.0, 1.0, 98), (2.0, 5.0, 47), (0.1, 0.7, 111), (-1.0, 1.0, 103),
+                               (4.0, 0.0, 49), (0.0, 1.0, 1000), (1.5, 1.5, 3)):
+                env = {_nk_(('arg', 2, None)): a0, _nk_(('arg', 3, None)): b0, _nk_(('arg', 4, None)): n0}
+                ctx = _Frame(ft, env=env, ncx=ncx_)
+                try:
+                    cnt = _count_of(sums[0][2][0], ctx)
+                except _Uneval as ex:
+                    why_ = str(ex)
+                    continue
+                except (TypeError, ValueError, OverflowError, ZeroDivisionError):
+                    continue
+                used += 1
+                if cnt != n0 - 1:
+                    bad = (a0, b0, n0, cnt)
+                    break
+            for kk in ncx_.visited:
+                rep.touch(kk)
+            if bad:
+                rep.viol('trapezoid-nodes', key, 'trapz(f, %r, %r, %d) sums f over %d interior nodes; the composite trapezoid rule with %d panels has %d (an extra node is '
+                         'weighted like an interior one, so even affine integrands are no longer exact)' % (bad[0], bad[1], bad[2], bad[3], bad[2], bad[2] - 1), site_of(ft.body))
+            elif used:
+                rep.ok('trapezoid-nodes', key, 'n - 1 interior nodes on %d (a, b, n) witnesses, rounding-sensitive panel counts included' % used)
+            else:
+                rep.undecided('trapezoid-nodes', key, 'node count not evaluated (%s)' % (why_ or 'no witness'), site_of(ft.body), proof=False)
+    rep.floor('trapezoid-nodes', 1, 'trapz')
+
     # ---- D7 every rule accepts every interval: no witness (a < b, a > b, a == b; at least one panel) on which a quadrature routine cannot
     # return -- e.g. a positivity assert on the step reached with a == b through a helper
     from ..precond import check_returns, positive_sizes
